@@ -45,6 +45,7 @@ namespace bxdecay0 {
 
   void W184low(i_random & prng_, event & event_, const int levelkev_)
   {
+    BXDECAY0_VERIF_SCOPE("scheme:W184low", levelkev_);
     double p;
     double tdlev;
     double tclev;
